@@ -261,3 +261,417 @@ OBLIGATIONS = [
     Ob("O18.1", o18_1, "dir_range_upper half-open range == startswith"),
     Ob("O18.2", o18_2, "prefix_clause + LIKE ESCAPE == startswith (case, %, _, backslash)"),
 ]
+
+
+# -------------------------------------------------------------------------------------------
+# Site obligations: the real glue code runs natively on a symbolic directory (PStr) under the fork
+# executor; the SQL text and arguments it produces are recorded and the label predicate of the
+# live statement is evaluated on a symbolic label in the string domain.
+# -------------------------------------------------------------------------------------------
+
+
+class _Cursor:
+    def __init__(self, rows=()):
+        self.rows = list(rows)
+
+    def fetchone(self):
+        return self.rows[0] if self.rows else None
+
+    def fetchall(self):
+        return self.rows
+
+    def __iter__(self):
+        return iter(self.rows)
+
+
+class _RecDB:
+    def __init__(self, first_row=None):
+        self.calls = []
+        self.first_row = first_row
+
+    def execute(self, sql, args=()):
+        self.calls.append((sql, tuple(args) if not isinstance(args, dict) else args))
+        return _Cursor([self.first_row] if self.first_row is not None else [])
+
+    def executemany(self, sql, seq):
+        for a in seq:
+            self.calls.append((sql, tuple(a)))
+        return _Cursor()
+
+    async def __aenter__(self):
+        return None
+
+    async def __aexit__(self, *a):
+        return False
+
+
+def _site(res, oid, name, run_site, oracle, dmax, lmax, dir_pre, row_cols):
+    """Explore the site; for each path evaluate the recorded predicate against the oracle."""
+    from vf import strsql
+    from vf.pstr import PStr
+    from vf.symsql.executor import Explorer
+    from vf.symsql.parse import parse
+
+    cs = live_like_case_sensitive()
+    counts = {"paths": 0, "statements": 0}
+
+    def body(run):
+        PStr.run = run
+        d = SStr.fresh("dir", dmax)
+        lab = SStr.fresh("label", lmax)
+        for c in (d.wellformed(), lab.wellformed(), d.chars_in(valid), lab.chars_in(valid), dir_pre(d)):
+            run.assume(_b(c))
+
+        def thunk():
+            return d, lab, run_site(PStr(d))
+
+        return None, thunk
+
+    def on_path(pr):
+        run = pr.run
+        counts["paths"] += 1
+        if pr.outcome == "raise":
+            if isinstance(pr.value, Unsupported):
+                res.inconclusive.append(f"{name}: {pr.value}")
+                return
+            v, m, dt = run.query()
+            res.q(f"{name}: no exception on a valid directory ({type(pr.value).__name__}: {pr.value})", "sat" if v == "sat" else v, dt)
+            if v == "sat":
+                res.inconclusive.append(f"{name} raised {pr.value!r} for a feasible directory")
+            return
+        d, lab, calls = pr.value
+        for sql, args, must in calls:
+            counts["statements"] += 1
+            tree = parse(sql)
+            where = strsql.find_where(tree, must)
+            if where is None:
+                res.inconclusive.append(f"{name}: cannot locate the label predicate in {' '.join(sql.split())[:100]}")
+                continue
+            cols = dict(row_cols)
+            for k in list(cols):
+                if cols[k] == "@label":
+                    cols[k] = lab
+            try:
+                env = strsql.Env(cols, _params_for(tree, where, args), cs)
+                sel = strsql.truth(strsql.ev(where, env))
+            except Unsupported as exc:
+                res.inconclusive.append(f"{name}: predicate outside the subset: {exc}")
+                continue
+            want = oracle(d, lab)
+            v, m, dt = run.query(_b(sel) != _b(want))
+            res.q(f"{name}: live predicate [{' '.join(strsql_text(where).split())[:70]}] selects exactly the labels under the directory", v, dt)
+            if v == "sat":
+                _site_violation(res, oid, name, d.eval(m), lab.eval(m))
+            elif v == "unsat" and counts["statements"] <= 2:
+                v2, m2, dt2 = run.query(_b(sel), lab.length() > d.length())
+                res.twin(f"{name}: some label is selected", v2, dt2)
+                if m2 is not None:
+                    res.samples.append({"site": name, "directory": d.eval(m2), "selected_label": lab.eval(m2), "sql": " ".join(sql.split())[:160]})
+
+    Explorer(max_paths=200).explore(body, on_path)
+    if counts["statements"] == 0:
+        res.inconclusive.append(f"{name}: the site issued no statement")
+
+
+def strsql_text(tree):
+    import lark
+
+    out = []
+
+    def rec(t):
+        if isinstance(t, lark.Token):
+            out.append(str(t))
+        else:
+            for k in t.children:
+                rec(k)
+
+    rec(tree)
+    return " ".join(out)
+
+
+def _params_for(stmt_tree, where_tree, args):
+    """The positional arguments that belong to `where_tree` (SQLite numbers '?' textually)."""
+    import lark
+
+    order = []
+
+    def rec(t, inside):
+        if isinstance(t, lark.Tree):
+            if t is where_tree:
+                inside = True
+            if t.data == "p_pos":
+                order.append(inside)
+            for k in t.children:
+                rec(k, inside)
+
+    rec(stmt_tree, False)
+    if isinstance(args, dict):
+        return []
+    if len(order) != len(args):
+        raise Unsupported(f"{len(args)} arguments for {len(order)} placeholders")
+    return [a for a, inside in zip(args, order) if inside]
+
+
+REPLAY_SITE = {}
+
+
+def _site_violation(res, oid, name, directory, label):
+    body = REPLAY_SITE[name].format(directory=directory, label=label)
+    key = f"{name} dir={directory!r} label={label!r}"
+    rp = write_replay("C18", oid, key, body)
+    ok, out = run_replay(rp)
+    if ok:
+        res.violations.append(Violation(f"{oid}:{name}", f"{name} selects a wrong set: directory {directory!r}, label {label!r}", {"directory": directory, "label": label}, rp))
+    else:
+        res.inconclusive.append(f"{name}: model dir={directory!r} label={label!r} does not reproduce: {out[-300:]}")
+
+
+_WF_SETUP = '''
+import asyncio
+from stepup.core.sqlite3 import DBSession
+from stepup.core.workflow import Workflow
+from stepup.core.file import File
+from stepup.core.enums import FileState, HashUpdateCause
+from stepup.core.hash import FileHash
+directory, label = {directory!r}, {label!r}
+async def main():
+    with DBSession.open(":memory:") as db:
+        wf = Workflow(db, dir_queue=None{wf_args})
+        await wf.initialize()
+        async with db:
+{body}
+sys.exit(asyncio.run(main()))
+'''
+
+REPLAY_SITE["has_regular_output_under"] = _WF_SETUP.replace("{wf_args}", "").replace("{body}", '''            wf.define_step(wf.root, "make", out_paths=[label])
+            got = wf.has_regular_output_under(directory)
+            want = label.startswith(directory)
+            print("has_regular_output_under", repr(directory), "with output", repr(label), "->", got, "expected", want)
+            return 1 if got != want else 0''')
+REPLAY_SITE["relevant_paths_under"] = _WF_SETUP.replace("{wf_args}", "").replace("{body}", '''            wf.declare_static_files(wf.root, [label])
+            wf.update_file_hashes({{label: FileHash(b"d" * 32, 0o100644, 1.0, 1, 1)}}, cause=HashUpdateCause.CONFIRMED)
+            got = label in set(wf.relevant_paths_under(directory))
+            d = directory if directory.endswith("/") else directory + "/"
+            want = label.startswith(d)
+            print("relevant_paths_under", repr(directory), "static file", repr(label), "->", got, "expected", want)
+            return 1 if got != want else 0''')
+REPLAY_SITE["is_justified_without_node"] = _WF_SETUP.replace("{wf_args}", "").replace("{body}", '''            wf.declare_static_files(wf.root, [label])
+            wf.update_file_hashes({{label: FileHash(b"d" * 32, 0o100644, 1.0, 1, 1)}}, cause=HashUpdateCause.CONFIRMED)
+            got = wf._is_justified_without_node(directory, [])
+            want = label.startswith(directory)
+            print("_is_justified_without_node", repr(directory), "static file", repr(label), "->", got, "expected", want)
+            return 1 if got != want else 0''')
+REPLAY_SITE["clean.search_matching_paths"] = '''
+from stepup.core.sqlite3 import connect
+from stepup.core.clean import search_matching_paths
+from path import Path
+directory, label = {directory!r}, {label!r}
+con = connect(":memory:")
+con.execute("CREATE TABLE node (i INTEGER PRIMARY KEY, label TEXT)")
+con.execute("CREATE TABLE file (node INTEGER PRIMARY KEY)")
+con.execute("INSERT INTO node VALUES (1, ?)", (label,)); con.execute("INSERT INTO file VALUES (1)")
+got = label in search_matching_paths(con, {{Path(directory)}})
+want = label == directory or label.startswith(directory + "/")
+print("stepup clean", repr(directory), "stored path", repr(label), "->", got, "expected", want)
+sys.exit(1 if got != want else 0)
+'''
+REPLAY_SITE["target_dir elevation"] = '''
+import asyncio
+from stepup.core.sqlite3 import DBSession
+from stepup.core.workflow import Workflow
+from stepup.core.scheduler import Scheduler
+from stepup.core.enums import Need
+directory, label = {directory!r}, {label!r}
+async def main():
+    with DBSession.open(":memory:") as db:
+        wf = Workflow(db, dir_queue=None, target_dirs=[directory])
+        await wf.initialize()
+        sched = Scheduler(wf, db=db)
+        await sched.initialize(None)
+        async with db:
+            wf.define_step(wf.root, "make", out_paths=[label])
+            wf.reconcile_targets()
+            sched._update_meta_after()
+            need = db.execute("SELECT _implied_need FROM step").fetchone()[0]
+        got = need == Need.TARGET.value
+        want = label.startswith(directory)
+        print("directory target", repr(directory), "output", repr(label), "-> elevated", got, "expected", want)
+        return 1 if got != want else 0
+sys.exit(asyncio.run(main()))
+'''
+
+
+def _interp_prefix_clause():
+    """prefix_clause builds its pattern with an f-string, which Python cannot run on a proxy: the
+    sites get the interpreted version of the LIVE function instead (same AST as O18.2)."""
+    from stepup.core import sqlite3 as sx
+    from vf.pstr import PStr
+
+    def prefix_clause(column, prefix):
+        paths = z3str.run_function(sx.prefix_clause, column, prefix.sym if isinstance(prefix, PStr) else prefix)
+        rets = [p for p in paths if p.kind == "return"]
+        if len(rets) != 1 or rets[0].cond is not True:
+            raise Unsupported("prefix_clause has more than one path")
+        clause, pattern = rets[0].value
+        return clause, (PStr(z3str.coerce(pattern)) if not isinstance(pattern, str) else pattern)
+
+    return prefix_clause
+
+
+def _endslash(d):
+    return d.endswith("/")
+
+
+def _noslash_nonempty(d):
+    return And(Not(d.endswith("/")), d.length() >= 1, Not(d.equals(SStr.const("."))))
+
+
+def o18_sites_range(tier) -> ObResult:
+    import stepup.core.scheduler as sch
+    import stepup.core.workflow as wfm
+    from stepup.core.enums import FileState
+    from vf.symsql.executor import drive
+
+    res = ObResult()
+    dmax, lmax = (5, 7) if tier == "quick" else (8, 10)
+    res.bounds = f"|dir| <= {dmax}, |label| <= {lmax}, all Unicode scalar values except NUL; sites: has_regular_output_under, _is_justified_without_node, Scheduler.initialize + UPDATE_CHECK_AFTER + RECONCILE_TARGET_DIRS"
+    res.encoded += [enc(wfm.Workflow.has_regular_output_under), enc(wfm.Workflow._is_justified_without_node), enc(sch.Scheduler.initialize), enc(sch.UPDATE_CHECK_AFTER, "scheduler.UPDATE_CHECK_AFTER"), enc(wfm.RECONCILE_TARGET_DIRS, "workflow.RECONCILE_TARGET_DIRS")]
+
+    def run_hro(d):
+        fake = type("W", (), {})()
+        fake.db = _RecDB((0,))
+        wfm.Workflow.has_regular_output_under(fake, d)
+        return [(sql, args, ["label"]) for sql, args in fake.db.calls]
+
+    row = {"onode.kind": "file", "onode.label": "@label", "onode.detached": 0, "ofile.state": FileState.BUILT.value}
+    _site(res, "O18.5", "has_regular_output_under", run_hro, lambda d, lab: lab.startswith(d), dmax, lmax, _endslash, row)
+
+    def run_just(d):
+        fake = type("W", (), {})()
+        fake.db = _RecDB(None)
+        wfm.Workflow._is_justified_without_node(fake, d, [])
+        return [(sql, args, ["label"]) for sql, args in fake.db.calls]
+
+    row2 = {"node.kind": "file", "node.label": "@label", "node.detached": 0, "file.state": FileState.CONFIRMED.value}
+    _site(res, "O18.5", "is_justified_without_node", run_just, lambda d, lab: lab.startswith(d), dmax, lmax, lambda d: And(_endslash(d), Not(d.equals(SStr.const("./"))), Not(d.equals(SStr.const("/")))), row2)
+
+    def run_targets(d):
+        fake_wf = type("W", (), {})()
+        fake_wf.targets = frozenset()
+        fake_wf.target_dirs = [d]
+        s = object.__new__(sch.Scheduler)
+        db = _RecDB()
+        object.__setattr__(s, "db", db)
+        object.__setattr__(s, "workflow", fake_wf)
+        drive(s.initialize(None))
+        ins = [(sql, args) for sql, args in db.calls if " ".join(sql.split()) == " ".join(sch.INSERT_TARGET_DIR.split())]
+        if len(ins) != 1 or len(ins[0][1]) != 2:
+            raise Unsupported("Scheduler.initialize did not insert exactly one (path, upper) row")
+        path, upper = ins[0][1]
+        out = []
+        for sql in (sch.UPDATE_CHECK_AFTER, wfm.RECONCILE_TARGET_DIRS):
+            out.append((sql, {"__row__": (path, upper)}, ["target_dir.path", "target_dir.upper"]))
+        return out
+
+    # target_dir rows come from the recorded INSERT; bind them as columns
+    def _site_targets():
+        from vf import strsql
+        from vf.pstr import PStr
+        from vf.symsql.executor import Explorer
+        from vf.symsql.parse import parse
+
+        def body(run):
+            PStr.run = run
+            d = SStr.fresh("dir", dmax)
+            lab = SStr.fresh("label", lmax)
+            for c in (d.wellformed(), lab.wellformed(), d.chars_in(valid), lab.chars_in(valid), _endslash(d)):
+                run.assume(_b(c))
+            return None, lambda: (d, lab, run_targets(PStr(d)))
+
+        def on_path(pr):
+            if pr.outcome == "raise":
+                res.inconclusive.append(f"target_dir: {type(pr.value).__name__}: {pr.value}")
+                return
+            d, lab, calls = pr.value
+            for sql, extra, must in calls:
+                path, upper = extra["__row__"]
+                tree = parse(sql)
+                where = strsql.find_where(tree, must)
+                if where is None:
+                    res.inconclusive.append("target_dir: cannot locate the range predicate")
+                    continue
+                cols = {"target_dir.path": path, "target_dir.upper": upper, "onode.label": lab, "onode.kind": "file"}
+                try:
+                    sel = strsql.truth(strsql.ev(where, strsql.Env(cols, [], True)))
+                except Unsupported as exc:
+                    res.inconclusive.append(f"target_dir: predicate outside the subset: {exc}")
+                    continue
+                v, m, dt = pr.run.query(_b(sel) != _b(lab.startswith(d)))
+                res.q(f"target_dir elevation: [{' '.join(strsql_text(where).split())[:80]}] with the (path, upper) row written by Scheduler.initialize selects exactly the labels under the directory", v, dt)
+                if v == "sat":
+                    _site_violation(res, "O18.5", "target_dir elevation", d.eval(m), lab.eval(m))
+                else:
+                    v2, m2, dt2 = pr.run.query(_b(sel), lab.length() > d.length())
+                    res.twin("target_dir elevation: some label is selected", v2, dt2)
+
+        Explorer(max_paths=50).explore(body, on_path)
+
+    _site_targets()
+    res.nontrivial = len(res.queries)
+    return res
+
+
+def o18_sites_like(tier) -> ObResult:
+    import stepup.core.clean as cl
+    import stepup.core.workflow as wfm
+    from stepup.core.enums import FileState
+
+    res = ObResult()
+    dmax, lmax = (3, 5) if tier == "quick" else (5, 7)
+    res.bounds = f"|dir| <= {dmax}, |label| <= {lmax}, all Unicode scalar values except NUL; sites: Workflow.relevant_paths_under, clean.search_matching_paths"
+    res.encoded += [enc(wfm.Workflow.relevant_paths_under), enc(cl.search_matching_paths)]
+
+    def run_rpu(d):
+        fake = type("W", (), {})()
+        fake.db = _RecDB(None)
+        fake.nglob_registrations = lambda: []
+        saved = wfm.prefix_clause
+        wfm.prefix_clause = _interp_prefix_clause()
+        try:
+            list(wfm.Workflow.relevant_paths_under(fake, d))
+        finally:
+            wfm.prefix_clause = saved
+        return [(sql, args, ["label"]) for sql, args in fake.db.calls]
+
+    def oracle_rpu(d, lab):
+        return Or(And(d.endswith("/"), lab.startswith(d)), And(Not(d.endswith("/")), lab.startswith(d + SStr.const("/"))))
+
+    row = {"node.label": "@label", "label": "@label", "state": FileState.CONFIRMED.value, "detached": 0}
+    _site(res, "O18.6", "relevant_paths_under", run_rpu, oracle_rpu, dmax, lmax, lambda d: d.length() >= 1, row)
+
+    def run_clean(d):
+        con = _RecDB(None)
+        saved = cl.__dict__.get("prefix_clause")
+        if saved is not None:
+            cl.prefix_clause = _interp_prefix_clause()
+        try:
+            cl.search_matching_paths(con, {d})
+        finally:
+            if saved is not None:
+                cl.prefix_clause = saved
+        return [(sql, args, ["label"]) for sql, args in con.calls]
+
+    def oracle_clean(d, lab):
+        return Or(lab.equals(d), lab.startswith(d + SStr.const("/")))
+
+    _site(res, "O18.6", "clean.search_matching_paths", run_clean, oracle_clean, dmax, lmax, _noslash_nonempty, {"label": "@label"})
+    res.nontrivial = len(res.queries)
+    return res
+
+
+from vf.z3str import Or  # noqa: E402
+
+OBLIGATIONS += [
+    Ob("O18.5", o18_sites_range, "range sites: has_regular_output_under, _is_justified_without_node, directory targets", weight=2),
+    Ob("O18.6", o18_sites_like, "LIKE sites: relevant_paths_under, stepup clean DIR", weight=3),
+]
